@@ -1074,8 +1074,18 @@ fn check_c_inner(inner: &str, l: &mut Local) {
     let observed = match observed {
         None => {
             l.hist("c:REJECTED-valid-spelling");
+            // classifier: the one bare argument `{…}\` with an escaped comma; without its final
+            // backslash it is a single `{…}` argument, which is refused as object syntax
+            let lost_backslash_makes_braced = exp_args.len() == 1
+                && exp_args[0].quote.is_none()
+                && exp_args[0].raw.contains("\\,")
+                && exp_args[0].val.strip_suffix('\\').map(|v| v.starts_with('{') && v.ends_with('}')).unwrap_or(false);
             l.mismatch(Mismatch {
-                sig: "c18.args.valid-spelling-not-injected".into(),
+                sig: if lost_backslash_makes_braced {
+                    "c18.args.bare.final-backslash-lost-when-a-comma-was-escaped".into()
+                } else {
+                    "c18.args.valid-spelling-not-injected".into()
+                },
                 what: format!("rule {:?}: the reference reads arguments {:?}, but nothing is injected", rule, exp_args.iter().map(|a| &a.val).collect::<Vec<_>>()),
                 case,
                 size,
